@@ -72,6 +72,7 @@ INVALIDATED = "(" + NOCONN + " and self.__can_reconnect)"
 fn(B + "_handle_dbapi_exception", cls="ConnH", props=["C27"], types=T, callees=CAL, returns="none", consts={"exc.StatementError": "sentinel"},
    requires=["not self._is_disconnect", "not self._g_was_disc"],
    ghost_after={"del self._is_disconnect": ["self._g_was_disc = True"]},
+   loop_modifies={0: ["any.is_disconnect", "any.invalidate_pool_on_disconnect", "any.chained_exception"]},
    # quick tier: no handle_error listeners installed (dialect._has_events false); thorough tier: all paths
    variants=[dict(name="no-listeners", requires=["not self.dialect._has_events"]), dict(name="all", tier="thorough")],
    # NoReturn
@@ -91,3 +92,22 @@ fn(B + "_handle_dbapi_exception", cls="ConnH", props=["C27"], types=T, callees=C
        "implies(not self._g_was_disc, self._dbapi_connection is old(self._dbapi_connection) and " + POOLG + " == old(" + POOLG + "))"]},
    modifies=["self._is_disconnect", "self._reentrant_error", "self._dbapi_connection", "self._g_was_disc", "any._g_fairy_invalidated", "any.is_valid",
              POOLG, "any.is_disconnect", "any.invalidate_pool_on_disconnect", "any.chained_exception", "any.connection_invalidated"])
+
+# ---- reconnecting after an invalidation: only when no transaction is pending (no silent continuation of a dead transaction)
+fn(B + "_invalid_transaction", cls="ConnH", props=["C27"], returns="none", consts={"exc.PendingRollbackError": "class"},
+   types={".": "v"}, raises={"PendingRollbackError": "True"}, ensures=["False"], modifies=[])
+import pyvc.contract as _pc  # noqa: E402
+_pc.CLASSES["ConnH"].fields.update({"_transaction": "v", "_nested_transaction": "v"})
+_pc.CLASSES["ConnH"].methods.update({"_invalid_transaction": B + "_invalid_transaction"})
+_pc.CLASSES["EngineH"].methods = dict(_pc.CLASSES["EngineH"].methods or {}, raw_connection="engine/base.py::Engine.raw_connection@new")
+fn("engine/base.py::Engine.raw_connection@new", abstract=True, cls="EngineH", params=["self"], returns="FairyH", fresh_result=True,
+   modifies=[], may_raise={"BaseException": "True"}, notes="checks a connection out of the pool (C25/C26); may raise")
+fn(B + "_revalidate_connection", cls="ConnH", props=["C27"], returns="opt:FairyH",
+   consts={"exc.ResourceClosedError": "class"},
+   raises={"ResourceClosedError": "not (" + NOCONN + " and self.__can_reconnect)",
+           # an invalidated connection with a transaction still pending does NOT silently get a fresh DBAPI connection
+           "PendingRollbackError": NOCONN + " and self.__can_reconnect and self._transaction is not None"},
+   may_raise={"BaseException": NOCONN + " and self.__can_reconnect and self._transaction is None"},
+   ensures=["result is self._dbapi_connection and fresh(result)", "old(self._transaction) is None"],
+   exc_ensures={"BaseException": ["self._dbapi_connection is old(self._dbapi_connection)"]},
+   modifies=["self._dbapi_connection"])
